@@ -1179,7 +1179,7 @@ func deepKey(param string, name string) string { return param + "[" + name + "]"
 //@ func verifPathValueChannel(param string, style PathStyle, explode bool, v string) (out string, err error)
 //@   requires style:    style == PathStyleSimple || style == PathStyleLabel
 //@   requires nonempty: len(v) > 0
-//@   uses pathEscapeInverse, pathUnescapePlainPrefix
+//@   uses pathEscapeInverse, pathUnescapePlainPrefix, pathUnescapeBytePrefix
 //@   ensures delivered: err == nil && out == v
 func verifPathValueChannel(param string, style PathStyle, explode bool, v string) (string, error) {
 	e := NewPathEncoder(PathEncoderConfig{Param: param, Style: style, Explode: explode})
